@@ -88,7 +88,7 @@ func checkC08(t *rapid.T, tr *twinRun) {
 	// the observable result stream and the deliveries, per incarnation
 	for _, r := range tr.replicas() {
 		for _, i := range r.incs() {
-			tr.checkIncarnation(t, r, i, "c08")
+			tr.checkIncarnation(t, r, i, "c08", false)
 		}
 	}
 	rec := inc.usm.pr().recovered
